@@ -47,6 +47,10 @@ Record flags := mkFlags {
   fl_else_drops_heap : bool;   (* ... whose not-cached branch also removes the file's access-time item             *)
   fl_load_reads_whole : bool;  (* _load_file does file.read() (the whole file at the time of the read); false = it reads at
                              most the size get_file took with os.path.getsize before its locked block              *)
+  fl_mkdir_exist_ok : bool;    (* _write_file creates the directory with os.makedirs(.., exist_ok=True); false = check-then-act:
+                             `if not os.path.isdir(p): os.makedirs(p)`                                             *)
+  fl_drop_failed : bool;       (* a worker whose load or write raised forgets its entry and access-time item under the lock
+                             (nothing is subtracted) before the exception reaches the future                       *)
   fl_busy_guard : bool    (* update_file waits for (and retries after) an in-flight load instead of unloading its
                              entry; unload_file leaves an entry whose future is not done alone                  *)
 }.
@@ -81,7 +85,7 @@ Fixpoint set_nth {A} (n : nat) (v : A) (l : list A) : list A :=
   end.
 
 (* ---------------------------------------------------------------- cache state *)
-Inductive exn := EAssert | EKey | ENotFound | EMemory.
+Inductive exn := EAssert | EKey | ENotFound | EMemory | EExists.
 Inductive outcome := OkC (c : content) | Exn (e : exn).
 
 Record entry := mkE { e_w : bool; e_size : Z; e_fut : nat }.
@@ -145,8 +149,19 @@ Definition ufm (fl : flags) (max : Z) (f : file) (mu : Z) (c : core) : core * op
 (* ---------------------------------------------------------------- worker tasks (= futures) *)
 Inductive tkind := KLoad | KWrite.
 (* load : T1 open rb   T2 read            T3 locked block   T4 future completion
-   write: T1 open wb   T2 close (flush)   T3 locked block   T4 future completion *)
-Inductive tpc := T1 | T2 | T3 | T4 | TEnd.
+   write: T1 open wb   T2 close (flush)   T3 locked block   T4 future completion
+   a write into a directory that does not exist yet when the task is submitted starts with
+          TMk makedirs     (or, check-then-act form: TIs isdir, then TMk makedirs without exist_ok)
+   a failed task (busy... flag fl_drop_failed): TDrop locked block that forgets the entry, then T4 *)
+Inductive tpc := T1 | T2 | T3 | T4 | TEnd | TMk | TIs | TDrop.
+
+(* files 100, 101, .. live in ONE subdirectory of the cache root; it exists iff the pseudo entry DIRKEY is on `disk` *)
+Definition DIRKEY : Z := -1.
+Definition in_sub (f : file) : bool := 100 <=? f.
+Definition dir_exists (d : list (file * content)) : bool :=
+  match lookup DIRKEY d with Some _ => true | None => false end.
+Definition dir_ready (d : list (file * content)) (f : file) : bool := negb (in_sub f) || dir_exists d.
+Definition real_files (d : list (file * content)) : list (file * content) := filter (fun fc => 0 <=? fst fc) d.
 
 Record task := mkTask {
   k_kind : tkind;
@@ -165,19 +180,30 @@ Definition task_done (ts : list task) (i : nat) : bool :=
 (* the entry's own task has not yet run its locked block: its size was never added to mem *)
 Definition inflight (ts : list task) (e : entry) : bool :=
   match nth_error ts (e_fut e) with
-  | Some k => match k_pc k with T1 | T2 | T3 => true | _ => false end
+  | Some k => match k_pc k with T4 | TEnd => false | _ => true end
   | None => false
   end.
 
+(* where a task goes when its function raises e *)
+Definition fail_to (fl : flags) (k : task) (e : exn) : task :=
+  mkTask (k_kind k) (k_file k) (k_data k) (if fl_drop_failed fl then TDrop else T4) (Some (Exn e)).
+
 Definition task_step (fl : flags) (max : Z) (c : core) (k : task) : option (core * task) :=
   let f := k_file k in
+  let mkdir := mkCore (mem c) (futs c) (heap c) (aset DIRKEY [] (disk c)) in
   match k_pc k with
+  | TIs =>                                                                   (* os.path.isdir(write_path) *)
+      Some (c, mkTask (k_kind k) f (k_data k) (if dir_exists (disk c) then T1 else TMk) None)
+  | TMk =>                                                                   (* os.makedirs(write_path[, exist_ok=True]) *)
+      if fl_mkdir_exist_ok fl then Some (mkdir, mkTask (k_kind k) f (k_data k) T1 None)
+      else if dir_exists (disk c) then Some (c, fail_to fl k EExists)
+      else Some (mkdir, mkTask (k_kind k) f (k_data k) T1 None)
   | T1 =>
       match k_kind k with
       | KLoad =>
           match lookup f (disk c) with
           | Some _ => Some (c, mkTask (k_kind k) f (k_data k) T2 None)
-          | None => Some (c, mkTask (k_kind k) f (k_data k) T4 (Some (Exn ENotFound)))
+          | None => Some (c, fail_to fl k ENotFound)
           end
       | KWrite => Some (mkCore (mem c) (futs c) (heap c) (aset f [] (disk c)), mkTask (k_kind k) f (k_data k) T2 None)
       end
@@ -199,8 +225,11 @@ Definition task_step (fl : flags) (max : Z) (c : core) (k : task) : option (core
   | T3 =>
       match ufm fl max f (zlen (k_data k)) c with
       | (c', None) => Some (c', mkTask (k_kind k) f (k_data k) T4 (Some (OkC (k_data k))))
-      | (c', Some e) => Some (c', mkTask (k_kind k) f (k_data k) T4 (Some (Exn e)))
+      | (c', Some e) => Some (c', fail_to fl k e)
       end
+  | TDrop =>                                                                 (* _run_task's except branch, under the lock *)
+      Some (mkCore (mem c) (adel f (futs c)) (remove_file f (heap c)) (disk c),
+            mkTask (k_kind k) f (k_data k) T4 (k_res k))
   | T4 => Some (c, mkTask (k_kind k) f (k_data k) TEnd (k_res k))
   | TEnd => None
   end.
@@ -263,7 +292,7 @@ Definition upd_lock (fl : flags) (s : gstate) (t : nat) (cl : client) (i : nat) 
     let id := length (g_tasks s) in
     upd (mkClient (c_ops cl) i (CWait id (fl_first fl)))
         (mkCore (mem c1) (aset f (mkE (fl_upd_w fl) (zlen d) id) (futs c1)) (heap c1) (disk c1))
-        (g_tasks s ++ [mkTask KWrite f d T1 None]) k'
+        (g_tasks s ++ [mkTask KWrite f d (if dir_ready (disk c) f then T1 else if fl_mkdir_exist_ok fl then TMk else TIs) None]) k'
   else
     match info with
     | Some e => upd (mkClient (c_ops cl) i (CWait (e_fut e) (fl_second fl))) c (g_tasks s) (g_k s)
@@ -395,7 +424,8 @@ Fixpoint run (fl : flags) (max : Z) (s : gstate) (sch : list nat) : gstate * opt
    rcount = operations that may still submit a task (gets before their locked block, updates before their
    final locked block) + tasks not yet completed; it never increases.  An update that has to wait for an
    in-flight load (busy guard) can be sent round once per such task, hence the 3*R terms. *)
-Definition tpc_weight (p : tpc) : nat := match p with T1 => 4 | T2 => 3 | T3 => 2 | T4 => 1 | TEnd => 0 end.
+Definition tpc_weight (p : tpc) : nat :=
+  match p with TIs => 7 | TMk => 6 | T1 => 5 | T2 => 4 | T3 => 3 | TDrop => 2 | T4 => 1 | TEnd => 0 end.
 Definition op_pending (o : op) : nat := match o with OGet _ | OUpd _ _ => 1 | OUnl _ => 0 end.
 Definition cur_pending (o : op) (p : cpc) : nat :=
   match o, p with
@@ -413,13 +443,13 @@ Definition rcount (s : gstate) : nat :=
   (fold_right (fun cl a => client_pending cl + a) 0 (g_clients s)
    + fold_right (fun k a => task_pending k + a) 0 (g_tasks s))%nat.
 
-Definition op_weight (R : nat) (o : op) : nat := match o with OGet _ => 8 | OUpd _ _ => 7 + 3 * R | OUnl _ => 1 end.
+Definition op_weight (R : nat) (o : op) : nat := match o with OGet _ => 11 | OUpd _ _ => 11 + 3 * R | OUnl _ => 1 end.
 Definition cur_weight (R : nat) (ts : list task) (o : op) (p : cpc) : nat :=
   match o, p with
-  | OGet _, CStart => 8 | OGet _, CSize => 7 | OGet _, CLock _ => 6 | OGet _, _ => 1
-  | OUpd _ _, CStart => 7 + 3 * R
-  | OUpd _ _, CAgain => 3 + 3 * R
-  | OUpd _ _, CRetry f => 4 + 3 * (R - (if task_done ts f then 0 else 1))
+  | OGet _, CStart => 11 | OGet _, CSize => 10 | OGet _, CLock _ => 9 | OGet _, _ => 1
+  | OUpd _ _, CStart => 11 + 3 * R
+  | OUpd _ _, CAgain => 9 + 3 * R
+  | OUpd _ _, CRetry f => 10 + 3 * (R - (if task_done ts f then 0 else 1))
   | OUpd _ _, _ => 1
   | OUnl _, _ => 1
   end.
@@ -477,7 +507,7 @@ Definition opt_eqb {A} (e : A -> A -> bool) (a b : option A) : bool :=
   match a, b with None, None => true | Some x, Some y => e x y | _, _ => false end.
 Definition exn_eqb (a b : exn) : bool :=
   match a, b with
-  | EAssert, EAssert | EKey, EKey | ENotFound, ENotFound | EMemory, EMemory => true
+  | EAssert, EAssert | EKey, EKey | ENotFound, ENotFound | EMemory, EMemory | EExists, EExists => true
   | _, _ => false
   end.
 Definition outcome_eqb (a b : outcome) : bool :=
@@ -491,7 +521,10 @@ Definition core_eqb (a b : core) : bool :=
 Definition tkind_eqb (a b : tkind) : bool :=
   match a, b with KLoad, KLoad | KWrite, KWrite => true | _, _ => false end.
 Definition tpc_eqb (a b : tpc) : bool :=
-  match a, b with T1, T1 | T2, T2 | T3, T3 | T4, T4 | TEnd, TEnd => true | _, _ => false end.
+  match a, b with
+  | T1, T1 | T2, T2 | T3, T3 | T4, T4 | TEnd, TEnd | TMk, TMk | TIs, TIs | TDrop, TDrop => true
+  | _, _ => false
+  end.
 Definition task_eqb (a b : task) : bool :=
   tpc_eqb (k_pc a) (k_pc b) && tkind_eqb (k_kind a) (k_kind b) && (k_file a =? k_file b) &&
   zlist_eqb (k_data a) (k_data b) && opt_eqb outcome_eqb (k_res a) (k_res b).
@@ -535,7 +568,8 @@ Definition gstate_eqb (a b : gstate) : bool :=
 (* a hash; collisions only cost time (buckets) *)
 Definition dg (acc : positive) (d : Z) : positive :=
   Pos.add (Pos.mul 16 acc) (Z.to_pos (1 + Z.abs d mod 15)).
-Definition tpc_code (p : tpc) : Z := match p with T1 => 1 | T2 => 2 | T3 => 3 | T4 => 4 | TEnd => 5 end.
+Definition tpc_code (p : tpc) : Z :=
+  match p with T1 => 1 | T2 => 2 | T3 => 3 | T4 => 4 | TEnd => 5 | TMk => 6 | TIs => 7 | TDrop => 8 end.
 Definition cpc_code (p : cpc) : Z :=
   match p with CStart => 0 | CSize => 1 | CLock _ => 2 | CWait f a => 5 + 2 * Z.of_nat f + (if a then 1 else 0)
   | CRetry f => 3 + 7 * Z.of_nat f | CAgain => 4 end.
